@@ -19,12 +19,12 @@ REPO = os.environ.get("DSW_VERIF_REPO", "/repo")
 
 # fixed run counts per tier (so that two invocations with the same VERIF_SEED give the same evidence apart from wall_s)
 RUNS = {
-    "C04": {"quick": 6400, "thorough": 64000},
-    "C06": {"quick": 9600, "thorough": 96000},
+    "C04": {"quick": 9600, "thorough": 96000},
+    "C06": {"quick": 12800, "thorough": 128000},
     "C07": {"quick": 3200, "thorough": 32000},
-    "C08": {"quick": 6400, "thorough": 64000},
-    "C09": {"quick": 6400, "thorough": 64000},
-    "C10": {"quick": 6400, "thorough": 64000},
+    "C08": {"quick": 9600, "thorough": 96000},
+    "C09": {"quick": 9600, "thorough": 96000},
+    "C10": {"quick": 12800, "thorough": 128000},
     "C17": {"quick": 1200, "thorough": 12000},
     "C18": {"quick": 2400, "thorough": 24000},
     "C19": {"quick": 1200, "thorough": 12000},
